@@ -445,7 +445,7 @@ class Runner:
         raw = site["src"] + "".join(v for k_, v in SITES.PARTIALS.items() if f"'{k_}'" in site["src"])
         if "@N@" in raw or re.search(r"[\[ (:]kd?\b", raw) or "msgs" in raw or re.search(r"\bM\d", raw):
             tc.add(name)
-        if "@M@" in raw:
+        if "@M@" in raw or "msgs" in raw or re.search(r"\bM\d", raw):
             tc.add(name2)
         mon.reset_case(frozenset(tc))
         self.scan.reset()
@@ -538,7 +538,8 @@ class Runner:
         elif "PUB" in res["out"]:
             ctx.count("renders_with_public_flow")
         if res["events"]:
-            ctx.nt(shape, site["id"], name, mode, ae)
+            if is_spy:   # engine / builtin / carrier shapes are counted once, in run_site
+                ctx.nt(shape, site["id"], name, mode, ae)
             for sh in res["touched"]:
                 ctx.seen("shape_site", f"{sh}|{site['id']}")
         if not is_spy and res.get("parsed"):
